@@ -59,6 +59,17 @@ def build(fns):
     modeb.no_path_query(g3, sc, "uploaded shard: Ok is reported only after registration in the cache shard manager", modeb.after(g3, us), rets, rg + resid)
     modeb.no_path_query(g3, sc, "witness: Ok return reachable after upload", modeb.after(g3, us), rets, resid, expect="sat", kind="witness")
     scripts.append(sc)
+    # O4: the session's staged shards are always consolidated and handed to upload tasks before Ok is returned
+    sc = smt.Script("c11_session_shards_always_uploaded")
+    g4 = _cfg(fns, r"shard_interface::.*upload_and_register_session_shards::\{closure#0\}$")
+    cons = g4.blocks_calling(r"consolidate_shards_in_directory$")
+    fl = g4.blocks_calling(r"ShardFileManager::flush$")
+    resid4 = g4.blocks_calling(r"FromResidual<.*>>::from_residual$")
+    if not (cons and fl):
+        raise LookupError("upload_and_register_session_shards shape not recognised")
+    modeb.no_path_query(g4, sc, "session shards: Ok is returned only after the staged shards were scanned / consolidated for upload", [g4.entry], sorted(g4.real_returns), cons + resid4)
+    modeb.no_path_query(g4, sc, "session shards: the in-memory shard is flushed before the directory is scanned", [g4.entry], cons, fl)
+    scripts.append(sc)
     return scripts
 
 
@@ -69,9 +80,9 @@ def replay(model, fnd, prop):
     rc, out = sh(["cargo", "test", "--offline", "--test", "c11_small_file_reupload"], cwd=os.path.join(VERIF, "replay"), env=env, timeout=2400,
                  log=os.path.join(LOGS, "replay_c11.log"))
     path = os.path.join(VERIF, "replay", "tests", "c11_small_file_reupload.rs")
-    if "test result: FAILED" in out and "C11 violated" in out:
+    if "test result: FAILED" in out:
         m = re.search(r"C11 violated: [^\n]*", out)
-        return True, path, m.group(0) if m else "native replay fails"
+        return True, path, m.group(0) if m else ("native replay fails: " + (re.search(r"panicked at [^\n]*\n[^\n]*", out).group(0).replace("\n", " ")[:200] if re.search(r"panicked at [^\n]*\n[^\n]*", out) else "test failed"))
     if "test result: ok" in out:
         return False, path, "native replay passes: re-upload transfers no new bytes"
     return None, path, "native replay inconclusive (rc=%s)" % rc
